@@ -196,6 +196,17 @@ func init() {
 		if !ok {
 			fail("sheet.go: (*File).searchSheet")
 		}
+		// limits added to the loaders / iterators
+		mentions := func(recv, name, what string) bool {
+			fd := funcDecl(recv, name)
+			return fd != nil && strings.Contains(src(fd), what)
+		}
+		if funcDecl("Rows", "Next") == nil || funcDecl("Rows", "Columns") == nil || funcDecl("xlsxWorksheet", "checkSheet") == nil || funcDecl("xlsxWorksheet", "checkRow") == nil {
+			fail("rows.go/excelize.go: Rows.Next, Rows.Columns, checkSheet, checkRow")
+		}
+		fmt.Fprintf(w, "def rowsBoundByTotalRows : Bool := %s\n", c04bool(mentions("Rows", "Next", "rowNum > TotalRows") && mentions("Rows", "Columns", "rowNum > TotalRows")))
+		fmt.Fprintf(w, "def checkSheetBoundsRows : Bool := %s\n", c04bool(mentions("xlsxWorksheet", "checkSheet", "r.R > TotalRows")))
+		fmt.Fprintf(w, "def checkRowSizesByGreatest : Bool := %s\n", c04bool(mentions("xlsxWorksheet", "checkRow", "colNum > lastCol")))
 		fmt.Fprintf(w, "def searchMustCompile : Bool := %s\n", c04bool(mc))
 		fmt.Fprintf(w, "def searchTracksPositions : Bool := %s\n", c04bool(tp))
 	})
